@@ -174,6 +174,8 @@ def _c07(run, drv, rng, tier):
 
 def _c14(run, drv, rng, tier):
     q = tier == "quick"
+    # the Python runtime first: it is the cheapest to execute and its helpers are the ones the translator regenerates
+    props_c.check_c14_python(run, drv, rng, 0.25 if q else 1.0)
     with R.Scratch() as sc:
         for be in (False, True):
             for fl in ((("-O2",),) if q else (("-O0",), ("-O2",))):
@@ -181,7 +183,6 @@ def _c14(run, drv, rng, tier):
                 props_c.check_array_grid(run, drv, rng, sc, be, fl, 0.5 if q else 1.0, "C14")
         from . import props_op
         props_op.check_c14_opmode(run, drv, rng, sc, 0.08 if q else 1.0)
-    props_c.check_c14_python(run, drv, rng, 0.25 if q else 1.0)
     run.coverage["exhaustive"] = not q
 
 
